@@ -67,7 +67,7 @@ func TestVerif_C16(t *testing.T) {
 	c := vStart(t, "C16", "TestVerif_C16")
 	defer c.Finish()
 	scratch := vEnv("VERIF_SCRATCH", t.TempDir())
-	reps := c.N(6, 40)
+	reps := c.N(6, 64)
 	for idx := int64(0); idx < reps; idx++ {
 		if !c.Mine(idx) {
 			continue
